@@ -180,6 +180,23 @@ Theorem grpc_metadata_if_absent : forall cfg existing k,
   md_get (grpc_add_headers cfg existing) (lower_s k) = md_get existing (lower_s k).
 Proof. exact grpc_keeps_l. Qed.
 
+(* ... and the consumers, which by then hold the PLAIN secrets, give back the next layer's result
+   untouched: the error of a failed request (logged and propagated by exporters) is the transport's /
+   invoker's error and does not depend on the configured headers *)
+Theorem consumer_result_is_next_layers : forall cfg next,
+  http_client_result cfg next = next /\ grpc_call_result cfg next = next.
+Proof. exact client_result_l. Qed.
+
+Theorem consumer_result_independent_of_secrets : forall cfg1 cfg2 next,
+  http_client_result cfg1 next = http_client_result cfg2 next /\ grpc_call_result cfg1 next = grpc_call_result cfg2 next.
+Proof. exact client_result_ni_l. Qed.
+
+Theorem tls_error_independent_of_contents : forall c1 c2 e,
+  nonempty (t_CertFile c1) = nonempty (t_CertFile c2) -> nonempty (t_CertPem c1) = nonempty (t_CertPem c2) ->
+  nonempty (t_KeyFile c1) = nonempty (t_KeyFile c2) -> nonempty (t_KeyPem c1) = nonempty (t_KeyPem c2) ->
+  tls_error_text (load_certificate c1) e = tls_error_text (load_certificate c2) e.
+Proof. exact tls_error_ni_l. Qed.
+
 (* configtls: the PEM fields, when they are the configured source, reach tls.X509KeyPair byte for
    byte; and whatever the loader gets "from PEM" is the field *)
 Theorem tls_loader_gets_pem : forall c,
@@ -261,6 +278,9 @@ Print Assumptions http_response_header_is_secret.
 Print Assumptions http_other_headers_untouched.
 Print Assumptions grpc_metadata_is_secret.
 Print Assumptions grpc_metadata_if_absent.
+Print Assumptions consumer_result_is_next_layers.
+Print Assumptions consumer_result_independent_of_secrets.
+Print Assumptions tls_error_independent_of_contents.
 Print Assumptions tls_loader_gets_pem.
 Print Assumptions tls_loaded_pem_is_field.
 Print Assumptions tls_pem_presence_is_generated.
